@@ -31,7 +31,7 @@ ALL_SIZED = BASE + CONV + BORROW + UNIQ + COW + UNWRAP
 def walks(prop, tier, seed, ops=None, hows=("new", "newB", "unique")):
     """random walks (tlc -simulate) through the sized-family specification with more slots, blocks and
     frame depth than the exhaustive configurations reach"""
-    n, d = (1000, 40) if tier == "quick" else (20000, 80)
+    n, d = (400, 40) if tier == "quick" else (20000, 80)
     return sized(prop, tier, "sized_walks_" + tier[0], ops or ALL_SIZED, 6, 4, 2, hows=hows, simulate=(n, d, seed))
 
 
@@ -64,7 +64,7 @@ def long_walks(prop, tier, seed):
     """long histories with many live handles: 12-16 slots, 30-40 blocks, frame depth 3, depth 200-400"""
     ns, nb, n, d = (12, 30, 6, 200) if tier == "quick" else (16, 40, 400, 400)
     return [sized(prop, tier, "sized_long_walks_" + tier[0], ALL_SIZED, ns, nb, 3, hows=("new", "newB", "unique", "from", "box"), simulate=(n, d, seed + 1)),
-            thin(prop, tier, "thin_long_walks_" + tier[0], THIN_OPS, ns, nb, 3, 3, simulate=(n, d, seed + 2)),
+            thin(prop, tier, "thin_long_walks_" + tier[0], THIN_OPS, ns, nb, 3, 3, simulate=(n if tier == "thorough" else 3, d, seed + 2)),
             slices(prop, tier, "slices_long_walks_" + tier[0], ns, nb, 3, simulate=(n, d, seed + 3)),
             uninit(prop, tier, "uninit_long_walks_" + tier[0], ns, nb, 4, simulate=(n, d, seed + 4))]
 
